@@ -327,3 +327,35 @@ tuple_arity!(c12_tuple_arity8, 8, 0, 1, 2, 3, 4, 5, 6, 7);
 tuple_arity!(c12_tuple_arity9, 9, 0, 1, 2, 3, 4, 5, 6, 7, 8);
 tuple_arity!(c12_tuple_arity10, 10, 0, 1, 2, 3, 4, 5, 6, 7, 8, 9);
 tuple_arity!(c12_tuple_arity11, 11, 0, 1, 2, 3, 4, 5, 6, 7, 8, 9, 10);
+
+/// arity mismatch: extracting a value tuple as a tuple type of a different arity must fail (panic), never truncate or pad.
+/// `#[kani::should_panic]`: the harness is verified only if the panic is reached for the symbolic members; the `_native`
+/// twin is the native replay (same calls under catch_unwind).
+macro_rules! tuple_mismatch {
+    ($name:ident, $native:ident, ($($src:expr),+), $target:ty) => {
+        #[kani::proof]
+        #[kani::unwind(14)]
+        #[kani::should_panic]
+        fn $name() {
+            let v: [i32; 12] = kani::any();
+            let t = ($(v[$src]),+).into_value_tuple();
+            let _back: $target = FromValueTuple::from_value_tuple(t);
+        }
+        #[cfg(test)]
+        #[test]
+        fn $native() {
+            let v: [i32; 12] = [1, 2, 3, 4, 5, 6, 7, 8, 9, 10, 11, 12];
+            let r = std::panic::catch_unwind(move || {
+                let t = ($(v[$src]),+).into_value_tuple();
+                let _back: $target = FromValueTuple::from_value_tuple(t);
+            });
+            assert!(r.is_err(), "a value tuple was extracted as a tuple of a different arity");
+        }
+    };
+}
+tuple_mismatch!(c12_tuple_5_as_4_mustpanic, c12_tuple_5_as_4_mustpanic_native, (0, 1, 2, 3, 4), (i32, i32, i32, i32));
+tuple_mismatch!(c12_tuple_4_as_5_mustpanic, c12_tuple_4_as_5_mustpanic_native, (0, 1, 2, 3), (i32, i32, i32, i32, i32));
+tuple_mismatch!(c12_tuple_12_as_11_mustpanic, c12_tuple_12_as_11_mustpanic_native, (0, 1, 2, 3, 4, 5, 6, 7, 8, 9, 10, 11), (i32, i32, i32, i32, i32, i32, i32, i32, i32, i32, i32));
+tuple_mismatch!(c12_tuple_3_as_2_mustpanic, c12_tuple_3_as_2_mustpanic_native, (0, 1, 2), (i32, i32));
+tuple_mismatch!(c12_tuple_2_as_3_mustpanic, c12_tuple_2_as_3_mustpanic_native, (0, 1), (i32, i32, i32));
+tuple_mismatch!(c12_tuple_4_as_3_mustpanic, c12_tuple_4_as_3_mustpanic_native, (0, 1, 2, 3), (i32, i32, i32));
